@@ -1,5 +1,5 @@
 """C13 `==` is structural equality on values."""
-REG_DRAFT = dict(
+REG = dict(
     engine='E1-enum',
     technique='bounded-exhaustive enumeration of all ordered pairs over a pool of literal-syntax values, evaluated by the real interpreter, compared with structural identity computed outside the interpreter; equivalence laws checked over the whole observed relation',
     text="A pool of ~90 values that have literal syntax of nesting <=2 (ints incl. i64 extremes, floats incl. 0.0/-0.0 and a 1e100-sized one, strings incl. empty and non-ASCII, lists, tuples, dicts incl. the same entries in a different insertion order, Option, Result, Bool, Unit, two user structs with the same fields, a user enum; 13 of them built by computation rather than written as a literal, e.g. an empty list obtained by filtering). Every ordered pair (a, b), each side written as its own literal, is evaluated as `a == b` and `a != b` on the real interpreter; every value is also compared with itself through one variable (`let v = e  v == v`) and through two variables. Oracle: `a == b` is True exactly when the two values are structurally identical (computed in Python from the pool's own description and cross-checked against the partition induced by Garden's printed forms), `!=` is the negation, and the observed relation is reflexive, symmetric and transitive over all triples. Exhaustive over pool x pool. Thorough tier: the pool is extended by every pool value wrapped in a list, in Some(...) and in a pair (about 380 values, 145k ordered pairs).",
